@@ -79,6 +79,13 @@ var propSpecs = map[string]*PropSpec{
 		Technique: "contract-based deductive verification: ghost log version; every section and command has the postcondition `error ==> log version unchanged` (recorded findings where the real code commits before it validates)",
 		Assume:    append([]string{"I/O faults of the write primitives and of stdout are excluded (assumed contracts); plan is not yet under contract"}, lockAssume...),
 	},
+	"C12": {
+		ID: "C12", Title: "State is a total function of the log; reads are pure; history only grows", Exclude: []string{"[fail-unchanged]", "[one-commit]", "[committed]"},
+		Funcs: cat([]string{"RunList", "RunShow", "RunWhere", "RunPrune", "RunPrunePlan", "runPrune", "runPrune$1", "sortByCreatedAt$1", "sortByCreatedAt", "buildTaskListItems",
+			"computeStatsForTasks", "collectNonEpicTasks", "filterActiveTasks", "filterReadyTasks", "stateIcon", "selectPruneTargets", "buildPrunePlan", "buildPruneItems", "buildTombstoneEvents", "newEvent", "claimedAtForTask"}, lockFuncs, readyFuncs, replayFuncs),
+		Technique: "contract-based deductive verification: (a) totality: every instruction of the replay loop, of tombstone application and of the read-side graph functions that can panic has a discharged safety obligation for EVERY event list; (b) determinism: every sort comparator that feeds output is proved a total order on the items it sorts (epics: defect repaired), map-derived slices are sorted; (c) read purity: list, show, where and prune without --yes are proved to call no write primitive (ghost log version and commit counter unchanged, no file creation except the lock file); ",
+		Assume: []string{"readEvents (line scanner, located parse errors) is an assumed contract until the storage layer is under contract; topoSortTasks/collectEpicChildren and the tree renderer are assumed pure; `promptly` (time bounds) is not expressible; append-only is carried by the assumed appendEvents contract (O_APPEND)"},
+	},
 	"C14": {
 		ID: "C14", Exclude: cat(txLabels, jsonLabels), Title: "Every task's epic reference names a live epic",
 		Funcs:     cat([]string{"createTaskWithDir$1", "applySetUpdates$1", "buildSetEvents", "selectPruneTargets", "newEvent"}, replayFuncs),
